@@ -5,7 +5,7 @@ FAMILIES = ['plain', 'timeout', 'kill', 'resize']
 PER_FAMILY = (300, 6000)
 
 
-PROOF = dict(prop_file='Props/C03.v', gen=['MapPath'], theorems=['C03_at_most_once', 'C03_cancelled_never_executed', 'C03_cancel_is_final', 'C03_result_from_own_execution', 'C03_token_unique', 'C03_map', 'C03_map_structure'], tf_families=['plain', 'timeout', 'kill', 'resize'], tf_per_family=(100, 1500),
+PROOF = dict(prop_file='Props/C03.v', gen=['MapPath', 'Flow', 'Pool'], theorems=['C03_at_most_once', 'C03_cancelled_never_executed', 'C03_cancel_is_final', 'C03_result_from_own_execution', 'C03_token_unique', 'C03_map', 'C03_map_structure', 'C03_token_flow_follows_the_source'], tf_families=['plain', 'timeout', 'kill', 'resize'], tf_per_family=(100, 1500),
              note='value payloads are abstracted to the work id that produced them; map(): that Executor.map yields chunk results in submission order is CPython\'s')
 
 
